@@ -12,7 +12,14 @@ import (
 	"time"
 )
 
-const verifRoot = "/verif"
+// verifRoot is /verif; VERIF_ROOT points the engine at a snapshot of it (used to measure how an earlier state of
+// the checks does on a new change: tools/mut.py --root).
+var verifRoot = func() string {
+	if r := os.Getenv("VERIF_ROOT"); r != "" {
+		return r
+	}
+	return "/verif"
+}()
 
 type TierOverride struct {
 	Unwind   int            `json:"unwind"`
